@@ -83,11 +83,46 @@ func rspSessionLookup(c *core.Ctx, rule string) {
 			}
 		}
 	})
+	// a session found under the header's UP SEID may be looked at (logged); what counts is handing it to own code
 	pos := fn.Pos()
-	if len(byUp) > 0 {
-		pos = byUp[0].Pos()
+	used := false
+	for _, ci := range byUp {
+		v := ci.Value()
+		if v == nil {
+			continue
+		}
+		for _, r := range *v.Referrers() {
+			ex, ok := r.(*ssa.Extract)
+			if !ok || ex.Index != 0 {
+				continue
+			}
+			for _, u := range *ex.Referrers() {
+				switch x := u.(type) {
+				case ssa.CallInstruction:
+					if f := core.Callee(x); f != nil && f.Pkg() != nil && p.IsOwn(f.Pkg()) {
+						used, pos = true, x.Pos()
+					}
+				case *ssa.FieldAddr:
+					for _, fr := range *x.Referrers() {
+						if _, isStore := fr.(*ssa.Store); isStore {
+							used, pos = true, fr.Pos()
+						}
+						if ld, isLoad := fr.(*ssa.UnOp); isLoad {
+							// a field of the session handed on to own code (sess.rnode.DeleteSess, sess.q ...)
+							for _, lr := range *ld.Referrers() {
+								if cc, isCall := lr.(ssa.CallInstruction); isCall {
+									if f := core.Callee(cc); f != nil && f.Pkg() != nil && p.IsOwn(f.Pkg()) {
+										used, pos = true, cc.Pos()
+									}
+								}
+							}
+						}
+					}
+				}
+			}
+		}
 	}
-	c.Check(rule, "response-session-by-two-keys", pos, len(byUp) == 0 || compares,
+	c.Check(rule, "response-session-by-two-keys", pos, !used || compares,
 		fmt.Sprintf("the Session Report Response handler reaches a session through the (CP SEID of the request, peer address) lookup (%d such call(s)), or checks the session found under the header's UP SEID against that CP SEID — the UP SEID alone may have been re-issued to another peer's session while the request was outstanding", len(by2)))
 	c.Floor(rule, len(by2), 1, "two-key lookups in the Session Report Response handler")
 }
